@@ -694,7 +694,7 @@ func (c *Cluster) Header() M {
 		"params": M{"maxappend": c.Opt.MaxAppend, "trailing": c.Opt.Trailing, "mono": c.Opt.Mono, "ct": c.Opt.CommitTrack, "cteager": c.Opt.CTEager,
 			"hb_us": int64(c.Opt.Heartbeat / time.Microsecond), "el_us": int64(c.Opt.Election / time.Microsecond), "lease_us": int64(c.Opt.Lease / time.Microsecond),
 			"prevote": !c.Opt.PreVoteOff, "pvoff": sortedKeys(c.Opt.PreVoteOffNodes), "batchfsm": c.Opt.BatchFSM, "cfgstore": c.Opt.CfgStoreFSM,
-			"norestore": c.Opt.NoSnapRestoreOnStart, "leasecheck": c.Opt.LeaseCheck}}
+			"norestore": c.Opt.NoSnapRestoreOnStart, "leasecheck": c.Opt.LeaseCheck, "hbfast": c.Opt.HBFast}}
 }
 
 // Finish shuts everything down so the bubble can end, and writes the header.
